@@ -1115,7 +1115,7 @@ CHECKS["C05"] = _with_cimpl("C05", _o5b)
 
 import clhtconf  # noqa: E402
 
-CONF_FAMILIES = ("F1-", "F1b", "F2-", "F3-", "F4-", "F4b", "F5-", "F6-", "F7-", "F8-", "F9-", "F10", "F11", "F12", "F13", "F14")
+CONF_FAMILIES = ("F1-", "F1b", "F2-", "F3-", "F4-", "F4b", "F5-", "F6-", "F6b", "F7-", "F8-", "F9-", "F10", "F11", "F12", "F13", "F14")
 
 
 def clht_conformance(ctx, kinds):
